@@ -264,8 +264,6 @@ func (tf *TextField) insertStringAtCursor(s string) {
 		next         = strings.Builder{}
 	)
 
-	count := graphemeCountInString(s)
-
 	for {
 		if len(rest) > 0 && i < tf.cursor {
 			cluster, rest, _, state = uniseg.FirstGraphemeClusterInString(rest, state)
@@ -275,8 +273,10 @@ func (tf *TextField) insertStringAtCursor(s string) {
 		}
 		// insert the string
 		next.WriteString(s)
-		// advance the cursor
-		tf.cursor += count
+		// advance the cursor: it goes behind the inserted text. The graphemes
+		// are counted anew, s can join the grapheme it is typed behind (a
+		// combining mark, a variation selector, the second half of a flag)
+		tf.cursor = graphemeCountInString(next.String())
 		next.WriteString(rest)
 		break
 	}
